@@ -173,7 +173,7 @@ pub(crate) fn extend_common(
             impl ::core::iter::ExactSizeIterator for #ident_struct {
                 #[inline]
                 fn len(&self) -> usize {
-                    use ::core::iter::Iterator;
+                    use ::core::iter::Iterator as _;
                     self.inner.size_hint().0
                 }
             }
